@@ -16,8 +16,15 @@
     sseek <id> <k> <c>               -> ok                              (the caller moves it: k lines + c characters)
     sread <id> <0|1>                 -> ok <state> @<k>,<c> | err:<class>   (read(stream, append); position afterwards)
 
+    ctor :line …                     -> ok <state> | err:<class>      (`Log(x)`: a new object; `ctorCall`)
+    ctort :text                      -> ok <state> | err:<class>
+
+    an append flag / a style given as `-` = argument left out (default of the signature, regenerated from the source)
+
     <state> = V:<version>|Vnone  D<y>-<m>-<d>|Dnone  N<k>  <sim>*
-    <sim>   = <table> (P0 | P1 <ncols> <nrows> :col… (:section :val…)*)
+    <sim>   = <table> (P0 | P1 <ncols> <nrows> :col… (:section :val…)*) <keys>
+    <keys>  = K<n> :key…  X<bits>      (keys() of the object; does sim[k] raise KeyError for k = thermo, performance, Step)
+    flatten replies `ok <table> <keys>`
     <table> = T <ncols> <nrows> :col…  (R<len> :tok…)*
 -/
 import Atomman.C19
@@ -60,12 +67,22 @@ def showPerf : Option Perf → List String
   | some p => ["P1", toString p.cols.length, toString p.rows.length] ++ p.cols.map encodeStr ++
       p.rows.flatMap (fun r => encodeStr r.1 :: r.2.map encodeStr)
 
+def probeKeys : List String := ["thermo", "performance", "Step"]
+
+def showKeys (o : SimObj) : List String :=
+  ["K" ++ toString o.keys.length] ++ o.keys.map (fun k => encodeStr k.toList) ++
+    ["X" ++ String.join (probeKeys.map (fun k => if o.getItemRefuses k then "1" else "0"))]
+
 def showState (st : LogState) : String :=
   " ".intercalate (
     [match st.version with | none => "Vnone" | some v => "V" ++ encodeStr v,
      match st.date with | none => "Dnone" | some d => s!"D{d.year}-{d.month}-{d.day}",
      "N" ++ toString st.sims.length] ++
-    st.sims.flatMap (fun s => showTable s.thermo ++ showPerf s.perf))
+    st.sims.flatMap (fun s => showTable s.thermo ++ showPerf s.perf ++ showKeys s.obj))
+
+/-- `-` = argument left out -/
+def parseOptBool? (s : String) : Option (Option Bool) :=
+  if s = "-" then some none else (parseBool? s).map some
 
 def parseOptInt? (s : String) : Option (Option Int) :=
   if s = "none" then some none else s.toInt?.map some
@@ -83,17 +100,31 @@ def handleC19 (w : World) (toks : List String) : World × String :=
   let st := w.log
   match toks with
   | ["new"] => ({ w with log := LogState.empty }, "ok")
+  | "ctor" :: rest =>
+    match rest.mapM decodeTok with
+    | some lines =>
+      match ctorCall (some lines) with
+      | .ok st' => ({ w with log := st' }, "ok " ++ showState st')
+      | .error e => ({ w with log := LogState.empty }, err e.name)
+    | none => (w, err "format")
+  | ["ctort", text] =>
+    match decodeTok text with
+    | some t =>
+      match ctorCall (some (splitLines t)) with
+      | .ok st' => ({ w with log := st' }, "ok " ++ showState st')
+      | .error e => ({ w with log := LogState.empty }, err e.name)
+    | none => (w, err "format")
   | "read" :: app :: rest =>
-    match parseBool? app, rest.mapM decodeTok with
+    match parseOptBool? app, rest.mapM decodeTok with
     | some a, some lines =>
-      match readLog st a lines with
+      match readCall st a lines with
       | .ok st' => ({ w with log := st' }, "ok " ++ showState st')
       | .error e => (w, err e.name)
     | _, _ => (w, err "format")
   | ["readt", app, text] =>
-    match parseBool? app, decodeTok text with
+    match parseOptBool? app, decodeTok text with
     | some a, some t =>
-      match readText st a t with
+      match readCall st a (splitLines t) with
       | .ok st' => ({ w with log := st' }, "ok " ++ showState st')
       | .error e => (w, err e.name)
     | _, _ => (w, err "format")
@@ -109,20 +140,20 @@ def handleC19 (w : World) (toks : List String) : World × String :=
       | none => (w, err "op")
     | _, _, _ => (w, err "format")
   | ["sread", id, app] =>
-    match id.toNat?, parseBool? app with
+    match id.toNat?, parseOptBool? app with
     | some id, some a =>
       match w.stream? id with
       | none => (w, err "op")
       | some s =>
-        match readLogS st a s with
+        match readLogS st (a.getD Gen.Log.readAppendDefault) s with
         | .ok (st', s') => ({ (w.setStream id s') with log := st' }, s!"ok {showState st'} @{s'.k},{s'.c}")
         | .error e => (w, err e.name)
     | _, _ => (w, err "format")
   | ["flatten", style, a, b] =>
-    match decodeTok style, parseOptInt? a, parseOptInt? b with
+    match (if style = "-" then some none else (decodeTok style).map some), parseOptInt? a, parseOptInt? b with
     | some sty, some a, some b =>
-      match flattenTables sty (pySlice (st.sims.map (·.thermo)) a b) with
-      | .ok t => (w, "ok " ++ " ".intercalate (showTable t))
+      match flattenCall st sty a b with
+      | .ok t => (w, "ok " ++ " ".intercalate (showTable t ++ showKeys (flattenObj t)))
       | .error e => (w, err e.name)
     | _, _, _ => (w, err "format")
   | ["state"] => (w, "ok " ++ showState st)
